@@ -1282,11 +1282,29 @@ def witnesses(ctx):
 
 
 def run(ctx):
+    # the Coq evaluation of one part overlaps with the Python work of the next ones
+    from concurrent.futures import ThreadPoolExecutor
+    real = ctx.coq_cases
+    pool = ThreadPoolExecutor(1)
+    futures = []
+
+    def deferred(*a, **k):
+        futures.append(pool.submit(real, *a, **k))
+        return []
+    ctx.coq_cases = deferred
     t = {}
-    for f in (numbers_part, scalars_part, numpy_part, rough_part, witnesses):
+    try:
+        for f in (numbers_part, scalars_part, numpy_part, rough_part, witnesses):
+            t0 = time.time()
+            f(ctx)
+            t[f.__name__] = round(time.time() - t0, 1)
         t0 = time.time()
-        f(ctx)
-        t[f.__name__] = round(time.time() - t0, 1)
+        for fu in futures:
+            fu.result()
+        t["waiting_for_coq"] = round(time.time() - t0, 1)
+    finally:
+        ctx.coq_cases = real
+        pool.shutdown(wait=True)
     ctx.note("part_wall_s", t)
 
 
